@@ -116,6 +116,11 @@ def run(rep, repo, tier):
         rep.rule(k_, v_)
     from .c16 import check_helper
     check_helper(rep, repo, repo.method('Options_parser', '_get_ordered_optimisations'), len(spec.CRITERIA), r1='C03.R6', r3='C03.R6', r6='C03.R6')
+    # ... and they are still there, and still the criterion's own, when it runs: nothing on the solve path consumes the
+    # parsed arguments (a second solve would fall back to the defaults), none leaks into the next criterion
+    from .c16 import check_extras_not_consumed, check_extras_isolation
+    check_extras_not_consumed(rep, repo, 'C03.R6')
+    check_extras_isolation(rep, repo, tier, 'C03.R6')
     for pc in (False, True):
         for stab in (False, True):
             for crit in ([lpfacts.crit_config('MINCOST', 2)], [lpfacts.crit_config('LOADSUMBAL')]):
